@@ -21,7 +21,8 @@ TReset == IsEvent("reset") /\ cm' = E.cmap /\ LexIdle /\ UNCHANGED cur
 
 TProbe == /\ IsEvent("probe")
           /\ LookupOK(cm, E.code, E.mapped)
-          /\ E.valid = InCodespace(cm, E.code)
+          \* a CMap that inherits from Identity-H / Identity-V also has their two-byte codespace
+          /\ E.valid = (InCodespace(cm, E.code) \/ (HasIdentityParent(cm) /\ Len(E.code) = 2))
           \* the mapped bytes are UTF-16BE: to_unicode yields exactly those characters
           /\ E.mapped.some => /\ E.uniSome
                               /\ E.uni = Utf16Decode(E.mapped.bytes)
